@@ -2,6 +2,7 @@ package checks
 
 import (
 	"fmt"
+	"math"
 	"strings"
 	"time"
 
@@ -62,6 +63,42 @@ func (m *c04mon) Check(s *sim.Sim, st *sim.Step) []*sim.Violation {
 				au.count, au.until, au.hasLast = 0, time.Time{}, false
 				ev = "manual-unlock"
 			}
+		}
+	case rec.Kind == "http" && (a.Kind == "sms_remove" || a.Kind == "sms_confirm") && rec.Method == "POST" && rec.HandlerRan:
+		// the SMS validator is one credential check shared by the validate, confirm and remove pages:
+		// a wrong code on any of them is a failed 2FA-code check of the session's user. (A right one
+		// changes a setting, it is no login: the automaton stays as it is.)
+		u := rec.Before.Users[rec.SessIn["uid"]]
+		if u == nil {
+			return nil
+		}
+		ok, judged := false, true
+		switch {
+		case a.Secret2 != "":
+			ok = liveRecovery(s, u.PID, a.Secret2)
+		default:
+			sec := rec.SessIn["sms_secret"]
+			if a.Secret == "" || sec == "" {
+				judged = false // a request for a (new) code / no code outstanding: not an attempt
+			} else {
+				want := u.SMSPhone
+				if a.Kind == "sms_confirm" {
+					want = rec.SessIn["sms_number"]
+				}
+				sentTo, bound := rec.SessIn["sms_secret_number"]
+				ok = a.Secret == sec && (!bound || sentTo == want)
+			}
+		}
+		if !judged {
+			return nil
+		}
+		U = u.PID
+		au := m.auto(u)
+		if ok {
+			ev = "2fa-settings-proof-accepted"
+		} else {
+			au.fail(now, W, D, N)
+			ev = "2fa-failure"
 		}
 	case rec.Kind == "http":
 		flow := flowOf(s, rec)
@@ -241,28 +278,49 @@ func (m *c04mon) Sig(s *sim.Sim, st *sim.Step) string {
 var c04Profile = &sim.Profile{
 	W: map[string]int{
 		"login": 40, "otp_login": 8, "otp_add": 3, "totp_validate": 10, "sms_validate": 10, "advance": 30, "admin_lock": 3,
-		"admin_unlock": 5, "logout": 3, "dropsid": 1,
+		"admin_unlock": 5, "logout": 3, "dropsid": 1, "sms_remove": 5, "sms_setup": 2, "sms_confirm": 3,
 	},
 	Cls: map[string]map[string]int{
 		"login":         {"ok": 40, "wrong": 40, "near": 8, "empty": 4, "other": 4, "hash": 4},
 		"otp_login":     {"ok": 40, "wrong": 30, "spent": 15, "empty": 5, "other": 10},
 		"totp_validate": {"ok": 35, "wrong": 35, "stale": 8, "othertotp": 6, "recovery": 8, "recovery_spent": 4, "recovery_other": 4},
 		"sms_validate":  {"ok": 35, "wrong": 35, "lastsms": 6, "empty": 8, "recovery": 8, "recovery_spent": 4, "recovery_other": 4},
+		"sms_remove":    {"empty": 30, "wrong": 40, "ok": 10, "recovery_spent": 10, "recovery_other": 10},
+		"sms_confirm":   {"wrong": 50, "ok": 30, "lastsms": 20},
 	},
-	MinLen: 30, MaxLen: 70,
+	MinLen: 30, MaxLen: 70, Templates: c04Templates, TplProb: 0.25,
+}
+
+var c04Templates = []sim.Template{
+	{Name: "wrong-codes-on-the-sms-remove-page", F: func(s *sim.Sim) []*sim.Action {
+		// a fully logged-in session asks for a removal code and then guesses: each wrong guess is a failed
+		// 2FA-code check and counts like any other, up to the lock
+		if !s.Cfg.Has2FA("sms") || !s.Cfg.Has("auth") {
+			return nil
+		}
+		v := findAcct(s, func(u *world.User) bool { return u.SMSPhone != "" && u.TOTPSecretKey == "" && u.Confirmed })
+		if v < 0 {
+			return nil
+		}
+		sc := []*sim.Action{act("login", 0, v, "ok"), act("sms_validate", 0, -9, "ok"), act("advance", 0, -9, "", "d", "11s"), act("sms_remove", 0, -9, "empty")}
+		for i := 0; i < s.W.AB.Config.Modules.LockAfter+1; i++ {
+			sc = append(sc, act("sms_remove", 0, -9, pickS(s.R, "wrong", "wrong", "recovery_spent")))
+		}
+		return append(sc, act("visit", 0, -9, "", "route", "/protected/plain"), act("login", 1, v, "ok"))
+	}},
 }
 
 func init() {
 	register(&Check{
 		ID: "C04", Level: "exploration",
-		Rule:  "histories of successes, failures on each path (password, OTP, TOTP code, SMS code, recovery code), manual lock/unlock and clock advances drawn from {1s,9s,10s,11s,1m, W-1ns, W, W+1ns, W±1s, 3W, D-1ns, D, D+1ns, D±1s, 3D} for LockAfter in {1,2,3,5} and window/duration in {3ns..2h}x{2ns..12h}, 2-3 accounts interleaved. An independent automaton (count,last,lockedUntil) written from the statement is driven by the same history; after every request that touches an account the stored (AttemptCount, Locked>now, Locked) must equal the automaton's. distinct_nontrivial = distinct (path, class, LockAfter, gap class relative to LockWindow, lock phase, count transition) signatures.",
+		Rule:  "histories of successes, failures on each path (password, OTP, TOTP code, SMS code — on the validate page and on the confirm/remove pages that share its validator —, recovery code), manual lock/unlock and clock advances drawn from {1s,9s,10s,11s,1m, W-1ns, W, W+1ns, W±1s, 3W, D-1ns, D, D+1ns, D±1s, 3D} for LockAfter in {1,2,3,5} and window/duration in {3ns..2h}x{2ns..12h}, 2-3 accounts interleaved. An independent automaton (count,last,lockedUntil) written from the statement is driven by the same history; after every request that touches an account the stored (AttemptCount, Locked>now, Locked) must equal the automaton's. distinct_nontrivial = distinct (path, class, LockAfter, gap class relative to LockWindow, lock phase, count transition) signatures.",
 		Units: func(t string) int { return tierN(t, 1500, 100000) },
 		Run: func(c *RunCtx, unit int) {
 			r := Rng(c.Seed, "C04", unit)
 			cfg := world.Cfg{Modules: shuffled(r, []string{"auth", "lock", "logout", "otp"}), Mount: "/auth", JSON: r.Intn(4) == 0,
 				LockAfter:    []int{1, 2, 3, 5}[r.Intn(4)],
 				LockWindow:   pickD(r, 3*time.Nanosecond, 30*time.Second, 5*time.Minute, 2*time.Hour),
-				LockDuration: pickD(r, 2*time.Nanosecond, 10*time.Second, time.Minute, 12*time.Hour),
+				LockDuration: pickD(r, 2*time.Nanosecond, 10*time.Second, time.Minute, 12*time.Hour, 12*time.Hour, time.Duration(math.MaxInt64)),
 				OneTimeTOTP:  r.Intn(2) == 0, LogoutMethod: "DELETE", Err500: r.Intn(2) == 0}
 			switch r.Intn(4) {
 			case 0:
